@@ -149,7 +149,7 @@ def replay(body):
 def run(ctx):
     rng = ctx.rng
     ctx.check_theorems()
-    ctx.check_generated(['eval', 'qpat', 'qus', 'k', 'kelev', 'kcrop', 'ksrceval', 'ksrccrop', 'blocks', 'dcommon'])
+    ctx.check_generated(['eval', 'qpat', 'qus', 'k', 'kelev', 'kcrop', 'ksrceval', 'ksrccrop', 'blocks', 'dcommon', 'crop', 'kcalls', 'kups'])
 
     # (K1) integer output buffers: Eval.store_int vs numpy for the dtypes the batch helpers return
     pattern, desc = cl.rand_pattern(rng, cmax=3, kinds=['RadialGradient'])
